@@ -27,7 +27,27 @@ def world(name):
     return deco
 
 
-class CompWorld:
+class _OwnedMeta(type):
+    '''Worlds that do not manage the library's process-global state themselves (no `_enter`) get it managed here: the
+    world is BUILT and every operation is APPLIED with the world's own copy of every class-level / module-level variable
+    of the library installed (mc/globalstate.py), so that forks of one exploration cannot influence each other through
+    state that a change of the library may have hoisted to class scope.'''
+
+    def __call__(cls, *a, **kw):
+        if hasattr(cls, '_enter'):
+            return super().__call__(*a, **kw)
+        from . import globalstate
+        gvals = globalstate.fresh()
+        gs = globalstate.enter(gvals)
+        try:
+            obj = super().__call__(*a, **kw)
+        finally:
+            globalstate.leave(gvals, gs)
+        obj.gvals = gvals
+        return obj
+
+
+class CompWorld(metaclass=_OwnedMeta):
     '''Base class.  Subclasses define menu/apply_op/done/final and keep everything that
     can influence the future (the real component, the reference model, counters) in
     attributes that are picklable and canonicalisable.'''
@@ -82,11 +102,17 @@ class CompWorld:
         saved = random.random
         random.random = self._next_weight
         from .line import _EventWatchdog
+        own = not hasattr(self, '_enter') and getattr(self, 'gvals', None) is not None
+        if own:
+            from . import globalstate
+            gs = globalstate.enter(self.gvals)
         try:
             with _EventWatchdog(lambda: f'operation {tuple(label)}'):
                 self.apply_op(tuple(label))
         finally:
             random.random = saved
+            if own:
+                globalstate.leave(self.gvals, gs)
 
     @classmethod
     def replay(cls, params, path):
